@@ -163,8 +163,9 @@ func v93Check(content string) (fails []hlib.Failure) {
 	return
 }
 
-func TestVerifC07Code93(t *testing.T) {
-	r := hlib.New("C07")
+func v93Main(t *testing.T, id string, only ...string) {
+	r := hlib.New(id)
+	r.Only = only
 	defer r.Done(t)
 	rng := rand.New(rand.NewSource(r.Seed))
 	thorough := r.Tier == "thorough"
@@ -197,7 +198,7 @@ func TestVerifC07Code93(t *testing.T) {
 		cases = append(cases, strings.Repeat("%", n), strings.Repeat("Z", n), hlib.RandFrom(rng, v93Basic, n), strings.Repeat("z", n))
 	}
 	flush()
-	n := 20000
+	n := 100000
 	if thorough {
 		n = 1500000
 	}
@@ -235,4 +236,11 @@ func TestVerifC07Code93(t *testing.T) {
 		}
 	}
 	flush()
+}
+
+func TestVerifC07Code93(t *testing.T) { v93Main(t, "C07") }
+
+// The same cases reported under the other properties they serve (only the named checks count).
+func TestVerifC10Code93(t *testing.T) {
+	v93Main(t, "C10", "panic", "result-shape", "rejects-representable", "accepts-unrepresentable")
 }
